@@ -199,12 +199,20 @@ def run(tier, seed, replay=None):
                     rep.violation(ru["sig"], ru["what"], dict(initial=res["beh"][0]["disk"], command=res["beh"][1]["c"],
                                                               injected=dict(kind=ru["kind"], call_index=ru["at"], call=ru.get("call"), errno=ru.get("errno")),
                                                               protocol_events=res["events"]))
-    tv = c.run_tlc("PreloadSysTrace.tla", "PreloadSysTrace.cfg", workers=1, env={"TRACE": tracefile}, heap="8g")
-    rep.cov["states"] += tv.distinct
-    rep.cov["transitions"] += tv.generated
-    verdict = json.loads(tv.printed[-1]) if tv.printed else None
+    try:
+        tv = c.run_tlc("PreloadSysTrace.tla", "PreloadSysTrace.cfg", workers=1, env={"TRACE": tracefile}, heap="8g")
+        rep.cov["states"] += tv.distinct
+        rep.cov["transitions"] += tv.generated
+        verdict = json.loads(tv.printed[-1]) if tv.printed else None
+    except c.MachineryError as e:
+        verdict = None
+        if not rep.violations:
+            raise
+        rep.drift.append("protocol trace validation could not be completed on a run that already violates the contract: " + str(e)[:200])
     if verdict is None:
-        raise c.MachineryError("PreloadSysTrace produced no report")
+        if not rep.violations:
+            raise c.MachineryError("PreloadSysTrace produced no report")
+        verdict = {"bad": [], "consumed": 0}
     rejected = sorted({idx[l - 1] for l in verdict["bad"]})
     for si, ri in rejected[:10]:
         ru = results[si]["runs"][ri]
